@@ -90,8 +90,13 @@ class Path:
             return d
         return self._decide(cond)
 
+    MAX_DECISIONS = 600
+
     def _decide(self, cond):
         i = len(self.decisions)
+        if i >= self.MAX_DECISIONS:
+            raise Concretization("more than %d symbolic decisions on one path: a loop whose exit depends on symbolic data and has no "
+                                 "invariant (only the outermost `while` of a filter is cut)" % self.MAX_DECISIONS)
         feas = (True, True)
         if self.decider is not None:
             r = self.decider(cond, self)
